@@ -15,7 +15,7 @@ from .c16 import SIMPLE, TASKPOOL
 
 NB = 500
 FUNCS = ["quick", "quick", "gated", "gated", "boom", "not_async", "alt", "alt"]
-GROUPS = ["G", "H", "apply-gated-group-0", "map-quick-group-0", "start-group-0", "start-group-1", "nope"]
+GROUPS = ["G", "H", "apply-gated-group-0", "map-quick-group-0", "start-group-0", "start-group-1", "nope", "g" * 300, "Ünï-çødé", "a=b", "x,y"]
 SHORT = {  # documented short options: first letter, upper case if taken (ControlParser.add_function_arg)
     "apply": {"args": "-a", "kwargs": "-k", "num": "-n", "group_name": "-g", "end_callback": "-e", "cancel_callback": "-c"},
     "map": {"num_concurrent": "-n", "group_name": "-g", "end_callback": "-e", "cancel_callback": "-c"},
